@@ -181,7 +181,8 @@ fn exec_cmd(args: &[String]) {
             }
         };
         let next = if gen == "faults" { ['d', 'r', 'p', 's'][r.below(4) as usize] } else { 'd' };
-        let c = exec::ExecCase { map, pool, mode, calls, faults, next, regs };
+        let nest = r.chance(1, 4);
+        let c = exec::ExecCase { map, pool, mode, calls, faults, next, nest, regs };
         let obs = exec::observe(&c, &mut env);
         writeln!(out, "{} :: {}\t{}", c.head(), prog::to_text(&c.regs), obs).unwrap();
     }
@@ -369,9 +370,9 @@ fn pool_cmd(args: &[String]) {
     let mut k = 0u64;
     let widths: Vec<u32> = if gen == "small" { vec![2, 3, 5] } else { (2..=16).collect() };
     for w in widths {
-        for cfg in ["user", "default", "batch", "async", "foreign"] {
+        for cfg in ["user", "default", "batch", "async", "foreign", "defbatch"] {
             // pool exactly as wide as the stage, and a larger one; the default pool has one thread per CPU
-            let sizes: Vec<usize> = if cfg == "default" { if (w as usize) <= cpus { vec![cpus] } else { vec![] } } else { vec![w as usize, 16.max(w as usize)] };
+            let sizes: Vec<usize> = if cfg == "default" { if (w as usize) <= cpus { vec![cpus] } else { vec![] } } else if cfg == "defbatch" { if (w as usize) < cpus { vec![cpus] } else { vec![] } } else { vec![w as usize, 16.max(w as usize)] };
             for p in sizes {
                 k += 1;
                 if k % sn != si { continue; }
